@@ -122,7 +122,13 @@ def run_task(task, repo, use_cvc5=True):
         except (PathEnd, Infeasible):
             pass
         except Unsupported as u:
-            res.unsupported.append(f"{u} (line {ctx.cur_lineno})")
+            # an unsupported construct on a path that is in fact infeasible is no obstacle
+            try:
+                dead = ctx.path_infeasible()
+            except Exception:
+                dead = False
+            if not dead:
+                res.unsupported.append(f"{u} (line {ctx.cur_lineno})")
         except RecursionError:
             res.errors.append("recursion limit")
         except Exception:
